@@ -204,6 +204,32 @@ fn utf8_part(rep: &mut Report, rng: &mut Rng, thorough: bool) {
     }
     rep.count_n("utf8_random_valid", nv);
     rep.count_n("utf8_random_invalid", ninv);
+    // long, mostly-ASCII strings (where block-wise or word-wise shortcuts would live): an ASCII run, a valid or
+    // invalid tail, a few trailing ASCII bytes; and one stray byte at every position of runs around block sizes
+    let tails: [&[u8]; 14] = [&[], &[0xC3, 0xA9], &[0xE2, 0x82, 0xAC], &[0xF0, 0x9F, 0x98, 0x80], &[0xFF], &[0x80], &[0xC3], &[0xE2, 0x82], &[0xF0, 0x9F, 0x98], &[0xC0, 0x80], &[0xED, 0xA0, 0x80], &[0xF4, 0x90, 0x80, 0x80], &[0xE0, 0x9F, 0xBF], &[0xF8]];
+    let mut nlong = 0;
+    for run in 0..=(if thorough { 130 } else { 72 }) {
+        for tail in tails {
+            for after in [0usize, 1, 2, 3, 5, 7, 8, 9] {
+                let mut v: Vec<u8> = (0..run).map(|i| b'a' + (i % 26) as u8).collect();
+                v.extend_from_slice(tail);
+                v.extend((0..after).map(|i| b'0' + (i % 10) as u8));
+                nlong += 1;
+                push_str(v, &mut lines, &mut real, &mut inputs, &mut is_mask);
+            }
+        }
+    }
+    for len in [7usize, 8, 9, 15, 16, 17, 31, 32, 33, 40, 63, 64, 65, 100] {
+        for pos in 0..len {
+            for bad in [0xFFu8, 0x80, 0xC3, 0xF0] {
+                let mut v: Vec<u8> = (0..len).map(|i| b'A' + (i % 26) as u8).collect();
+                v[pos] = bad;
+                nlong += 1;
+                push_str(v, &mut lines, &mut real, &mut inputs, &mut is_mask);
+            }
+        }
+    }
+    rep.count_n("utf8_long_ascii_dominant", nlong);
     let model = match crate::model::run_model("C16", &lines) {
         Ok(m) => m,
         Err(e) => {
@@ -364,6 +390,12 @@ fn views_for<T: Copy + PartialEq + std::fmt::Debug + 'static>(
         out.push(ViewCase { line: format!("(into {align} 0 0)"), real: format!("{} {}", class(backm.as_ptr() as usize, usize::MAX), backm.len()), numeric: false });
         if d_len != 0 || dm != 0 || !back.is_empty() || !backm.is_empty() {
             rep.oracle_fail(&tag, "null-view-not-empty", json!({"deref_len": d_len}));
+        }
+        // the empty slice a NULL view becomes is still a valid `&[T]`: non-null and aligned for `T`
+        let al = std::mem::align_of::<T>();
+        let (pa, pb) = (back.as_ptr() as usize, backm.as_ptr() as usize);
+        if pa == 0 || pb == 0 || pa % al != 0 || pb % al != 0 {
+            rep.oracle_fail(&tag, "null-view-becomes-an-invalid-slice", json!({"ptr": pa, "ptr_mut": pb, "align": al}));
         }
         let mut vo: DiplomatOwnedSlice<T> = unsafe { std::mem::transmute_copy(&raw) };
         let ol = (&*vo).len();
